@@ -921,6 +921,16 @@ ADVANCE_TO_APP_DATA:
         }
 #endif  /* USE_TLS_1_1 */
     }
+    else if ((ssl->flags & SSL_FLAGS_READ_SECURE) &&
+             !(ssl->flags & SSL_FLAGS_AEAD_R) &&
+             ssl->rec.len < ssl->deMacSize)
+    {
+        /* Stream and NULL ciphers: the record must at least hold the MAC,
+           or the MAC position below is computed in front of the buffer */
+        ssl->err = SSL_ALERT_BAD_RECORD_MAC;
+        psTraceErrr("Ciphertext length failed sanity\n");
+        goto encodeResponse;
+    }
 
     /*
        Decrypt the record contents using the current cipher (may be NULL).
